@@ -428,6 +428,9 @@ func (e *Enc) callExtern(site ssa.Instruction, key string, ext *ExternDecl, call
 		e.assertOb(fmt.Sprintf("pre@%s#%d.%d", short, k, j+1), t, "precondition of "+short+": "+r.Src, posOf(site))
 	}
 	res := e.callByKind(site, key, ext.Kind, args, rt)
+	for _, m := range ext.Modifies {
+		e.havocSpecLoc(ctx, m, key)
+	}
 	ctx.heap = e.cur
 	if calleeObj != nil {
 		sig := calleeObj.Type().(*types.Signature)
@@ -468,6 +471,10 @@ func (e *Enc) havocSpecLoc(ctx *SpecCtx, m Expr, key string) {
 	switch x := m.(type) {
 	case *ESel:
 		base := ctx.eval(x.X)
+		if gl, ok := ctx.ghostFieldLoc(base, x.F); ok {
+			e.havocLoc(e.cur, gl)
+			return
+		}
 		pt, ok := base.T.Underlying().(*types.Pointer)
 		if !ok {
 			ctx.fail("modifies: %s is not a pointer", x.X)
